@@ -131,7 +131,7 @@ fn update_with(aspath: &[u8], nlri: &[u8]) -> Vec<u8> {
     m
 }
 
-fn exec_live(fams_cfg: Vec<Fam>, po: Vec<u8>) -> String {
+fn exec_live(fams_cfg: Vec<Fam>, po: Vec<u8>, delay: bool) -> String {
     let peer = match OpenMessage::from_octets(Bytes::from(po)) { Ok(p) => p, Err(_) => return "err".into() };
     let rt = tokio::runtime::Builder::new_current_thread().enable_all().build().unwrap();
     rt.block_on(async move {
@@ -145,21 +145,35 @@ fn exec_live(fams_cfg: Vec<Fam>, po: Vec<u8>) -> String {
         let (pdu_tx, mut pdu_rx) = tokio::sync::mpsc::channel::<BgpMsg<Bytes>>(64);
         let cfg = Cfg { addpath: fams_cfg.iter().map(|(a, s)| AfiSafiType::from((*a, *s))).collect() };
         let mut s = Session::new(cfg, rd, tx, cmd_rx, pdu_tx);
-        s.verif_set_state(State::OpenSent);
-        // what this session advertises
-        s.send_open();
-        let sent = match pdu_rx.try_recv() { Ok(BgpMsg::Open(o)) => o, _ => return "no-open-sent".to_string() };
-        let sent4 = sent.four_octet_capable() as u8;
-        let sentap = match sent.addpath_families_vec() {
-            Ok(v) if v.is_empty() => "-".to_string(),
-            Ok(v) => v.iter().map(|(f, d)| { let (a, s) = fam_of(*f); format!("{}/{}/{}", a, s, u8::from(*d)) }).collect::<Vec<_>>().join(","),
-            Err(_) => "E".into(),
-        };
+        // `delay`: the other copy of the negotiation code – the peer's OPEN arrives in Active while the
+        // DelayOpenTimer runs (Event 20); the session then sends its own OPEN from that arm
+        let mut open_sent: Option<OpenMessage<Bytes>> = None;
+        if delay {
+            s.verif_set_state(State::Active);
+            s.verif_start_delay_open_timer();
+        } else {
+            s.verif_set_state(State::OpenSent);
+            // what this session advertises
+            s.send_open();
+            open_sent = match pdu_rx.try_recv() { Ok(BgpMsg::Open(o)) => Some(o), _ => return "no-open-sent".to_string() };
+        }
         let mut extra: Vec<Fam> = fams_cfg.clone();
         if let Ok(v) = peer.addpath_families_vec() { for (f, _) in v { extra.push(fam_of(f)); } }
         let fams = watched(&extra);
-        let r = s.verif_inject_event(Event::BgpOpen(peer)).await;
+        let r = if delay { s.verif_inject_event(Event::BgpOpenWithDelayOpenTimerRunning(peer)).await }
+                else { s.verif_inject_event(Event::BgpOpen(peer)).await };
         while rx.try_recv().is_ok() {}
+        if delay {
+            while let Ok(m) = pdu_rx.try_recv() { if let BgpMsg::Open(o) = m { open_sent = Some(o); } }
+        }
+        let (sent4, sentap) = match &open_sent {
+            Some(sent) => (sent.four_octet_capable() as u8, match sent.addpath_families_vec() {
+                Ok(v) if v.is_empty() => "-".to_string(),
+                Ok(v) => v.iter().map(|(f, d)| { let (a, s) = fam_of(*f); format!("{}/{}/{}", a, s, u8::from(*d)) }).collect::<Vec<_>>().join(","),
+                Err(_) => "E".into(),
+            }),
+            None => (9, "no-open".to_string()),
+        };
         if r.is_err() { return format!("L inject-err sent4={} sentap={}", sent4, sentap); }
         let conn = match s.verif_connection_mut() { Some(c) => c, None => return "L no-connection".to_string() };
         let cfgs = show_cfg(conn.verif_session_config(), &fams);
@@ -268,6 +282,7 @@ impl Prop for C12 {
         for pd in 0..4u8 { for p4 in [false, true] { for cfgd in [false, true] {
             let po = mk_open(p4, &dirs_to_aps(&f4[..1], &[pd], false), true, true);
             v.push(format!("live {} {}", if cfgd { "1.1" } else { "-" }, hex(&po)));
+            v.push(format!("live-delay {} {}", if cfgd { "1.1" } else { "-" }, hex(&po)));
         } } }
         let n = match tier { Tier::Quick => 300, Tier::Thorough => 20000 };
         for _ in 0..n {
@@ -276,6 +291,7 @@ impl Prop for C12 {
             let pd: Vec<u8> = (0..4).map(|_| rng.below(4) as u8).collect();
             let po = mk_open(rng.bool(), &dirs_to_aps(&f4, &pd, rng.bool()), rng.bool(), rng.bool());
             v.push(format!("live {} {}", if cf.is_empty() { "-".into() } else { cf.join(",") }, hex(&po)));
+            v.push(format!("live-delay {} {}", if cf.is_empty() { "-".into() } else { cf.join(",") }, hex(&po)));
         }
         // random: any directions, several capabilities, shuffled order, other families, duplicates sometimes
         let n = match tier { Tier::Quick => 1500, Tier::Thorough => 150000 };
@@ -310,7 +326,11 @@ impl Prop for C12 {
                 _ => "bad-op".into(),
             },
             ["live", f, p] => match (parse_fams(f), unhex(p)) {
-                (Some(f), Some(p)) => exec_live(f, p),
+                (Some(f), Some(p)) => exec_live(f, p, false),
+                _ => "bad-op".into(),
+            },
+            ["live-delay", f, p] => match (parse_fams(f), unhex(p)) {
+                (Some(f), Some(p)) => exec_live(f, p, true),
                 _ => "bad-op".into(),
             },
             _ => "bad-op".into(),
@@ -339,7 +359,7 @@ impl Prop for C12 {
                 if !sw.starts_with(&format!("H {} | B {} |", want_sw, want_sw)) { return Err(format!("swapped OPENs: got `{}`, expected H/B `{}`", sw, want_sw)); }
                 Ok(())
             }
-            ["live", f, p] => {
+            ["live", f, p] | ["live-delay", f, p] => {
                 let cf = parse_fams(f).ok_or("fams")?;
                 let po = unhex(p).ok_or("hex")?;
                 let Some((p4, pap)) = ref_ap(&po) else { return Ok(()) };
